@@ -40,10 +40,16 @@ use std::collections::{HashMap, VecDeque};
 use self::{find_many_nodes::FindManyNodesContext, target_peers::PutToTargetPeersContext};
 
 mod find_many_nodes;
+#[cfg(not(feature = "verif"))]
 mod find_node;
+#[cfg(feature = "verif")]
+pub mod find_node;
 mod get_providers;
 mod get_record;
+#[cfg(not(feature = "verif"))]
 mod target_peers;
+#[cfg(feature = "verif")]
+pub mod target_peers;
 
 /// Logging target for the file.
 const LOG_TARGET: &str = "litep2p::ipfs::kademlia::query";
